@@ -654,15 +654,17 @@ def run_shard(ctx, shard, nshards, tier, t_end, replay_cases=None):
         if st['w'] is not None:
             res['kicks'] += st['w'].sq.kicks
             st['w'].stop()
-        for attempt in (1, 2):
+        for attempt in (1, 2, 3, 4):
             st['w'] = UWorld(ctx, shard)
             try:
                 st['w'].start()
                 break
             except HarnessError as e:
+                # start-up has a 60 s real-time limit, which an overloaded machine can exceed: wait and try again
                 st['w'] = None
-                if attempt == 2 or 'not ready' not in str(e):
+                if attempt == 4 or not ('not ready' in str(e) or 'watchdog' in str(e)):
                     raise
+                time.sleep(15)
         res['starts'] += 1
         return st['w']
 
